@@ -432,7 +432,7 @@ func (ex *Exec) load(st *State, loc *Loc) Val {
 		v := Val{T: loc.T, L: make([]*Term, len(ls))}
 		for i, l := range ls {
 			h := ex.heapGet(st, elemHeapName(loc.Obj, loc.Prefix+l.Path), ArrSort(SInt, ArrSort(SInt, l.Sort)))
-			v.L[i] = Select(Select(h, loc.Base), loc.Idx)
+			v.L[i] = Select(shiftRow(Select(h, loc.Base), loc.Off), loc.Idx)
 		}
 		return v
 	}
@@ -474,9 +474,32 @@ func (ex *Exec) store(st *State, loc *Loc, v Val) {
 		for i, l := range ls {
 			name := elemHeapName(loc.Obj, loc.Prefix+l.Path)
 			h := ex.heapGet(st, name, ArrSort(SInt, ArrSort(SInt, l.Sort)))
-			ex.heapSet(st, name, Store(h, loc.Base, Store(Select(h, loc.Base), loc.Idx, v.L[i])))
+			ex.heapSet(st, name, Store(h, loc.Base, Store(Select(h, loc.Base), absIdx(loc), v.L[i])))
 		}
 	}
+}
+
+func absIdx(loc *Loc) *Term {
+	if loc.Off == nil {
+		return loc.Idx
+	}
+	return Add(loc.Off, loc.Idx)
+}
+
+// shiftRow views a backing-array row from a slice offset: select(shiftRow(r,o), j) = select(r, o+j).
+// Keeping the index of the outer select free of arithmetic lets E-matching instantiate quantified
+// facts about slice elements.
+func shiftRow(row *Term, off *Term) *Term {
+	if off == nil || isZero(off) {
+		return row
+	}
+	is, es := row.sort.splitArr()
+	name := "shift_" + sanitize(string(es))
+	if _, ok := TS.axioms[name]; !ok {
+		DeclFun(name, []Sort{row.sort, SInt}, row.sort)
+		TS.axioms[name] = fmt.Sprintf("(assert (forall ((a %s) (o Int) (j %s)) (! (= (select (%s a o) j) (select a (+ o j))) :pattern ((select (%s a o) j)))))", row.sort, is, name, name)
+	}
+	return App(name, row.sort, row, off)
 }
 
 // derefLoc turns a pointer value into a location.
